@@ -130,6 +130,8 @@ def proj_str(proj):
                 out.append("[_]")
             elif e[0] == "ci":
                 out.append("[%d]" % e[1])
+            elif e[0] == "sub" and len(e) >= 4 and not e[3] is None:
+                out.append("[%d..]" % e[1])  # subslice pattern `[_, rest @ ..]`: rest starts at e[1]
             else:
                 out.append(e[0])
         else:
@@ -415,8 +417,8 @@ def loop_depth(body, bb, loops=None):
 
 
 def bool_sim(body, atom_value, max_states=20000):
-    """Which blocks can be reached when the comparison statements listed in `atom_value` ({(block, statement index): bool}) have
-    the given outcomes?  A tiny path-sensitive interpreter over the boolean part of the MIR: it tracks locals holding known
+    """Which blocks can be reached when the comparison statements listed in `atom_value` ({(block, statement index): bool}, or
+    {("call", block): bool} for the result of a boolean call) have the given outcomes?  A tiny path-sensitive interpreter over the boolean part of the MIR: it tracks locals holding known
     booleans through copies, `!`, `&` / `|` and the control flow of `&&` / `||`, follows a `switchInt` whose operand is known
     and explores both ways otherwise.  Returns the set of reachable block indices (normal edges only)."""
     blocks = body.blocks
@@ -484,7 +486,10 @@ def bool_sim(body, atom_value, max_states=20000):
                 nxt = [tg[int(known)]] if int(known) in tg else [t["otherwise"]]
         elif t["k"] == "call":
             if t.get("dest") and len(t["dest"]) == 1:
-                env.pop(t["dest"][0], None)
+                if ("call", bi) in atom_value:
+                    env[t["dest"][0]] = atom_value[("call", bi)]  # the outcome of a boolean call given as an atom
+                else:
+                    env.pop(t["dest"][0], None)
             nxt = [x for x in succs(blk)][:1] if t.get("target") is None else [t["target"]]
             nxt = [x for x in succs(blk) if not blocks[x].get("cleanup")]
         else:
